@@ -366,6 +366,31 @@ func checkPointContinuous(fs *fails, s *uvSpec, c uvCase, d any) {
 			} else if ex := math.Exp(L); !(P == ex || closeRel(P, ex, tolProbRel)) {
 				fs.add(fail(s, "prob-exp-logprob-boundary", c, "Prob(%v)=%v but exp(LogProb)=%v", e, P, ex))
 			}
+			// Where the log-density is finite both at the end of the support and
+			// just inside it, the value at the end is the limit from the inside
+			// (the densities are continuous on their support).
+			in := e + (1-2*float64(side))*1e-12*s.scale(p)
+			if Lin := lp.LogProb(in); in != e && !math.IsInf(L, 0) && !math.IsNaN(L) && !math.IsInf(Lin, 0) && !math.IsNaN(Lin) && math.Abs(L-Lin) > 1e-6*(1+math.Abs(Lin)) {
+				fs.add(fail(s, "density-jump-at-boundary", c, "LogProb(%v)=%v at the end of the support but LogProb(%v)=%v just inside it", e, L, in, Lin))
+			}
+		}
+	}
+	// family: points far beyond the grid on an unbounded side: the density is
+	// tiny there, but Prob must still be a number and equal exp(LogProb)
+	if pr, ok := d.(prober); ok && len(xs) > 0 {
+		lp := d.(logprober)
+		mid, sc := xs[len(xs)/2], s.scale(p)
+		for _, k := range []float64{50, 800, 1e4} {
+			for _, sg := range []float64{-1, 1} {
+				x := mid + sg*k*sc
+				if x <= lo || x >= hi {
+					continue
+				}
+				P, L := pr.Prob(x), lp.LogProb(x)
+				if math.IsNaN(P) || P < 0 || math.IsNaN(L) || !(closeRel(P, math.Exp(L), tolProbRel) || (P < 1e-300 && math.Exp(L) < 1e-300)) {
+					fs.add(fail(s, "prob-far-point", c, "Prob(%v)=%v, LogProb=%v (exp %v), %v scale units from the median", x, P, L, math.Exp(L), sg*k))
+				}
+			}
 		}
 	}
 }
